@@ -36,6 +36,11 @@ def jobs(tier):
     js = [dict(kind="forward", case=i) for i in range(8)]
     js += [dict(kind="inverse", case=i) for i in range(8)]
     js += [dict(kind="inverse-special"), dict(kind="safe-fwd"), dict(kind="safe-inv-valid"), dict(kind="safe-inv-invalid")]
+    # round trip, as a chain (DESIGN C10.3): (B) box bound on the composed real code, (A/C) per-value table obligations
+    for i in range(8):
+        js.append(dict(kind="rt-box", shard=[i, 8, 12]))
+    for i in range(8):
+        js.append(dict(kind="rt-table", lo=32 * i, hi=32 * i + 31))
     return js
 
 
@@ -131,6 +136,92 @@ def run_job(job):
             eng.oblige("valid 8-bit colour on any triple", is_valid8(tuple(a)))
             return a
         rk = "inverse"
+    elif kind == "rt-box":
+        # (B) The composed real code rgb_to_oklch -> oklch_to_rgb on linear-light values relaxed to the whole cube [0,1]^3
+        # (the 256 tabulated values are in it): the linear values handed to the final gamma step differ from the
+        # originals by at most 1e-6.  Cube roots / sqrt are ALGEBRAIC here (y^3 = x, y^2 = x, exact), cos/sin/atan2
+        # are uninterpreted under the polar identities C*cos(h) = a, C*sin(h) = b for the angle the code computed.
+        eng = symx.Engine(feas_timeout_ms=40, algebraic=True)
+        vin, vout, trig = [], [], {}
+        conv.srgb_to_linear = lambda c: (vin.append(eng.real_var("v%d" % len(vin), 0, 1)), vin[-1])[1]
+        conv.linear_to_srgb = lambda x: (vout.append(x), eng.real_var("w%d" % len(vout), 0, 1))[1]
+        sm = conv.math
+        real_atan2, real_cos, real_sin, real_sqrt = sm.atan2, sm.cos, sm.sin, sm.sqrt
+
+        class Spy(type(sm)):
+            def atan2(self, y, x):
+                trig["ba"] = (y, x)
+                return real_atan2(y, x)
+
+            def cos(self, t):
+                trig["t"] = t
+                return real_cos(t)
+
+            def sqrt(self, x):
+                r = real_sqrt(x)
+                trig.setdefault("C", r)
+                return r
+
+        conv.math = Spy()
+        TOL = Fraction(1, 10 ** 6)
+        TR = Fraction(1, 10 ** 12)
+
+        def fn():
+            vin.clear()
+            vout.clear()
+            trig.clear()
+            rgb = eng.rgb_var("t")           # only carriers: srgb_to_linear is the relaxation stub
+            L, C, H = conv.rgb_to_oklch(rgb)
+            out_ = conv.oklch_to_rgb((L, C, H))
+            t = trig.get("t")
+            f_cos, f_sin = eng.ufs.get(("cos", 1)), eng.ufs.get(("sin", 1))
+            if t is not None and f_cos is not None and f_sin is not None:
+                tt = lift(t).real()
+                cc, ss = SNum(f_cos(tt)), SNum(f_sin(tt))
+                if "ba" in trig:
+                    b_, a_ = trig["ba"]
+                    Cc = trig["C"]
+                    # trusted trigonometric identities for the angle computed from atan2(b, a) (with or without +360 deg)
+                    eng.assume(close(Cc * cc, a_, TR))
+                    eng.assume(close(Cc * ss, b_, TR))
+                else:
+                    eng.assume(close(cc, 1, TR))     # hue 0: cos 0 = 1, sin 0 = 0
+                    eng.assume(close(ss, 0, TR))
+            eng.oblige("three linear values reach the gamma step", sbool(len(vout) == 3 and len(vin) == 3))
+            for ch, a, b in zip("rgb", vout, vin):
+                eng.oblige("round trip, linear light %s: |v'' - v| <= 1e-6 on the whole cube" % ch, close(a, b, TOL))
+            return out_
+        rk = "roundtrip"
+    elif kind == "rt-table":
+        # (A)/(C) per 8-bit value k: the real srgb_to_linear(k/255) lies in an exact rational enclosure [A_k, B_k]; the real
+        # linear_to_srgb + rounding maps both A_k - 1e-6 and B_k + 1e-6 (clipped to [0,1]) to k, on the same branch.
+        # With (B) and the monotonicity of the transfer function on each branch this gives round(...) == k for all 2^24.
+        def fn():
+            k = eng.int_var("k", job["lo"], job["hi"])
+            from ..symx import enclose_pow
+            for kv in range(job["lo"], job["hi"] + 1):
+                if not eng.branch((k == kv).e):
+                    continue
+                c = Fraction(kv, 255)
+                if c <= Fraction(4045, 100000):
+                    A = B = c / Fraction(1292, 100)
+                    A, B = A * (1 - Fraction(1, 10 ** 12)), B * (1 + Fraction(1, 10 ** 12))
+                else:
+                    A, B = enclose_pow((c + Fraction(55, 1000)) / Fraction(1055, 1000), 12, 5)
+                    A, B = A * (1 - Fraction(1, 10 ** 11)), B * (1 + Fraction(1, 10 ** 11))
+                lin = conv.srgb_to_linear(k / 255.0)
+                eng.oblige("srgb_to_linear(%d/255) in the exact enclosure" % kv, conj(lift(lin) >= A, lift(lin) <= B))
+                branches = []
+                for nm, x in (("low", max(Fraction(0), A - Fraction(1, 10 ** 6))), ("high", min(Fraction(1), B + Fraction(1, 10 ** 6)))):
+                    xs = SNum(symx.rv(x))
+                    branches.append(x <= Fraction(31308, 10 ** 7))
+                    y = conv.linear_to_srgb(xs)
+                    n = max(0, min(255, round(y * 255)))
+                    eng.oblige("linear_to_srgb + rounding maps the %s end of [v_k - 1e-6, v_k + 1e-6] back to k = %d" % (nm, kv), lift(n) == kv)
+                eng.oblige("the interval around v_%d lies on one branch of the transfer function" % kv, sbool(branches[0] == branches[1]))
+                return kv
+            return None
+        rk = "roundtrip"
     else:
         raise ValueError(kind)
 
@@ -139,7 +230,7 @@ def run_job(job):
             pr.obligations = [("no exception (%s: %s)" % (type(pr.exc).__name__, str(pr.exc)[:100]), z3.BoolVal(False), {})]
         runner.discharge(ID, job, pr, out, rk, ext_timeout_s=120)
 
-    shard = (job["case"], 8, 6) if kind == "inverse" else None
+    shard = (job["case"], 8, 6) if kind == "inverse" else (tuple(job["shard"]) if job.get("shard") else None)
     eng.explore(fn, on_path, shard=shard)
     out.d["stats"] = dict(eng.stats)
     return out.d
@@ -201,8 +292,31 @@ def _ladder_inv(job):
                 yield dict(L=Fraction(L).limit_denominator(1000), C=Fraction(C).limit_denominator(1000), H=Fraction(H))
 
 
-REPLAYS = {"forward": replay_forward, "safe-fwd": replay_forward, "inverse": replay_inverse}
-LADDER = {"forward": _ladder_fwd, "safe-fwd": _ladder_fwd, "inverse": _ladder_inv}
+def replay_roundtrip(inp):
+    """the exhaustive ground truth of the round trip, restricted to what a counterexample can name: a colour (or, for the
+    table jobs, a channel value k) -- judged by actually converting forth and back with the real code"""
+    from cm_colors.core.conversions import rgb_to_oklch, oklch_to_rgb
+    bad = []
+    if "k" in inp:
+        k = int(inp["k"])
+        cols = [(k, k, k), (k, 0, 0), (0, k, 0), (0, 0, k), (k, 255, 255), (255, k, 0), (17, 200, k)]
+    else:
+        cols = [tuple(int(inp.get("t" + c, 0)) for c in "rgb")]
+        import itertools
+        cols += [(r, g, b) for r, g, b in itertools.product((0, 1, 10, 11, 64, 127, 128, 200, 254, 255), repeat=3)]
+    for c in cols:
+        back = oklch_to_rgb(rgb_to_oklch(c))
+        if back != c:
+            bad.append((c, back))
+    return bool(bad), "round trip mismatches: %r" % (bad[:5],)
+
+
+def _ladder_rt(job):
+    yield dict(tr=8, tg=9, tb=9)
+
+
+REPLAYS = {"forward": replay_forward, "safe-fwd": replay_forward, "inverse": replay_inverse, "roundtrip": replay_roundtrip}
+LADDER = {"forward": _ladder_fwd, "safe-fwd": _ladder_fwd, "inverse": _ladder_inv, "roundtrip": _ladder_rt}
 
 
 def main(tier, seed):
